@@ -121,6 +121,10 @@ def gen_case(rng, for_log=False):
                         'output': filt_out},
             'pending': rng.choice(['', '', 'PEND\xe9ing']), 'steps': steps, 'end': end, 'logs': [],
             'prior': rng.random() < 0.3, 'dead_first': dead_first}
+    if case['pending'] and rng.random() < 0.5:
+        # the pending text was left behind by an exact-string call that timed out
+        case['pending'] = 'PEND\xe9ing text, longer than any look-back'
+        case['pending_trim'] = True
     if for_log:
         case['interact'] = True
         case['logs'] = rng.choice([['logfile'], ['logfile_read'], ['logfile_send'],
@@ -150,6 +154,7 @@ def run_session(case):
     cfg = {k: case[k] for k in ('enc', 'poll', 'escape', 'filters', 'pending', 'logs')}
     cfg['prior'] = bool(case.get('prior'))
     cfg['dead_first'] = bool(case.get('dead_first'))
+    cfg['pending_trim'] = bool(case.get('pending_trim'))
     S = Session(cfg)
     obs = {'returned': None, 'timeline': []}
     try:
